@@ -25,13 +25,13 @@ const (
 )
 
 type runCtx struct {
-	id      string
-	tier    string
-	seed    int
-	verbose bool
-	solver  string
-	start   time.Time
-	only    string // run only harnesses whose name contains this
+	id             string
+	tier           string
+	seed           int
+	verbose        bool
+	solver         string
+	start          time.Time
+	only           string // run only harnesses whose name contains this
 	boundsOverride map[string]int
 }
 
